@@ -14,6 +14,8 @@ echo "without-pass=$without with-fail=$with baseline=$base build=$build"
 [ $without -ge 1 ] && [ $with -ge 1 ] && [ $base -ge 1 ] && [ $build -ge 1 ] || { echo "NOT CONFIRMED"; exit 1; }
 d=/verif/seeded/$id; mkdir -p $d
 cp $src/patch.diff $src/demo_test.go $d/; [ -f $src/NOTES.md ] && cp $src/NOTES.md $d/
+[ -f $src/patch.orig.diff ] && cp $src/patch.orig.diff $d/
+if [ -f $src/patch.diff.rebased ]; then cp $src/patch.diff $d/patch.orig.diff; mv $src/patch.diff.rebased $d/patch.diff; fi
 python3 - "$id" "$place" "$*" <<'P'
 import json,sys
 id,place,args=sys.argv[1:4]
